@@ -427,6 +427,18 @@ def r13_13(ctx, rep):
                "`%s` (line %d): entries below the tolerance are dropped, not just structural zeros" % (norm(c)[:60], c.lineno))
 
 
+@SPEC.rule(
+    "R13.14",
+    "cached variables read their own rows of the metadata matrices (R19.6 evaluated for this property): load_model advances the row offset by "
+    "every variable's element count on every iteration — a variable skipped because `it has no symbolic metadata` shifts every later "
+    "variable's min / max / nominal onto an earlier variable's rows",
+)
+def r13_14(ctx, rep):
+    from ..engine import run_as
+    from .c19 import r19_6
+    run_as(r19_6, "R13.14", ctx, rep)
+
+
 # -- seeded variants ---------------------------------------------------------
 @SPEC.rule(
     "R13.7",
